@@ -12,12 +12,15 @@ const RULE: &str = "N in {2,3} rewriter instances from a 14-entry menu (plain, s
 #[derive(Clone)]
 struct Inst {
     name: &'static str,
-    p: &'static Prepared,
+    p: &'static Cfg,
     chunks: Vec<Vec<u8>>,
 }
 
-fn leak(cfg: Cfg) -> &'static Prepared {
-    Box::leak(Box::new(Prepared::new(cfg).unwrap()))
+/// The configuration is kept unparsed: selectors are parsed on the executing thread as part of
+/// the instance's `new` call, so that per-thread parser state (if any) is part of the schedule.
+fn leak(cfg: Cfg) -> &'static Cfg {
+    Prepared::new(cfg.clone()).expect("menu configuration must be valid");
+    Box::leak(Box::new(cfg))
 }
 
 fn menu() -> Vec<Inst> {
@@ -100,7 +103,10 @@ fn step(inst: &Inst, live: &Arc<Mutex<Live>>, k: usize) {
     };
     if k == 0 {
         let shared = l.shared.clone();
-        let r = catch_unwind(AssertUnwindSafe(|| SendRewriter::new(build_send(inst.p, &shared), LogSink(shared.clone()))));
+        let r = catch_unwind(AssertUnwindSafe(|| {
+            let prepared = Prepared::new(inst.p.clone()).expect("valid configuration");
+            SendRewriter::new(build_send(&prepared, &shared), LogSink(shared.clone()))
+        }));
         match r {
             Ok(rw) => l.rewriter = Some(rw),
             Err(e) => {
